@@ -4,6 +4,7 @@ package main
 
 import (
 	"go/types"
+	"sort"
 	"strings"
 )
 
@@ -26,6 +27,7 @@ type treq struct {
 
 type jwsTerms struct {
 	B, PH, dec, decX, algMap string
+	algNames                 []string // when there is no name->algorithm map: the six names
 }
 
 func jwsNames(c *Check) jwsTerms {
@@ -36,6 +38,16 @@ func jwsNames(c *Check) jwsTerms {
 	t.decX = "encoding/json.Unmarshal(" + t.B + ", &" + t.PH + ".ExtendedAttributes)"
 	for _, g := range c.globalsOfType("ncg/signature/jws", "map[string]ncg/internal/algorithm.Algorithm") {
 		t.algMap = g
+	}
+	if t.algMap == "" {
+		// no name -> algorithm map: the reading direction is a switch over the names; the names are
+		// the values of the algorithm -> name map
+		for _, g := range c.globalsOfType("ncg/signature/jws", "map[ncg/internal/algorithm.Algorithm]string") {
+			for _, r := range mapRowTerms(c.P, g) {
+				t.algNames = append(t.algNames, r[1])
+			}
+		}
+		sort.Strings(t.algNames)
 	}
 	return t
 }
@@ -63,7 +75,17 @@ func jwsContentReqs(t jwsTerms) []treq {
 		{"crit-has-scheme", "signing scheme marked critical", pending(hScheme)},
 		{"crit-has-authtime", "signingAuthority: authentic signing time marked critical", AnyOf(isX, pending(hAuthTime))},
 		{"crit-has-expiry", "expiry, when present, marked critical", AnyOf(A("+IsNil("+PH+".Expiry)"), A("+TZero(*"+PH+".Expiry)"), pending(hExpiry))},
-		{"alg-in-table", "declared algorithm is in the name table", A("+Has(" + t.algMap + ", " + PH + ".Algorithm)")},
+		{"alg-in-table", "declared algorithm is in the name table", func() LP {
+			if t.algMap != "" {
+				return A("+Has(" + t.algMap + ", " + PH + ".Algorithm)")
+			}
+			var alts []LP
+			for _, n := range t.algNames {
+				a, b := sorted2(n, PH+".Algorithm")
+				alts = append(alts, A("+Eq("+a+", "+b+")"))
+			}
+			return AnyOf(alts...)
+		}()},
 	}
 }
 
@@ -186,8 +208,8 @@ func checkC07(c *Check) {
 		switch f.name {
 		case "JWS":
 			t := jwsNames(c)
-			if t.algMap == "" {
-				c.undecided(rule, "JWS algorithm name table", "no package-level map[string]signature.Algorithm in the jws package", "")
+			if t.algMap == "" && len(t.algNames) != 6 {
+				c.undecided(rule, "JWS algorithm name table", "no package-level map[string]signature.Algorithm in the jws package (and no algorithm -> name map of six rows to read the names from)", "")
 				continue
 			}
 			reqs = jwsContentReqs(t)
